@@ -275,7 +275,7 @@ Proof.
   assert (ADN : ad = None) by (apply (ad_none L S); auto).
   assert (H : held r = []).
   { destruct (held r) eqn:E; auto. assert (X : held r <> []) by congruence.
-    destruct (l_held L X) as [Y|[Y|[Y|Y]]]; try (rewrite Y in IS; discriminate).
+    destruct (l_held L X) as [Y|[Y|Y]]; try (rewrite Y in IS; discriminate).
     destruct (pc r) as [| | | | |a|a|]; simpl in *; try discriminate; destruct a; simpl in *; discriminate. }
   assert (L0 : launches r = 0%nat).
   { pose proof (l_L1 L). destruct (launches r) as [|[|n]] eqn:E; auto; try lia.
@@ -568,33 +568,35 @@ Proof.
   destruct w; simpl; rewrite upd_same; auto.
 Qed.
 
-(* the intermediate state of aio_start after the token locks have been taken *)
+(* the state of an aborted start before dependency.check(): locks taken so far, waiting for the job lock to be released *)
 Lemma inv_acquired : forall W s j hd av, wf W = true -> Inv W s -> pc (jobs s j) = PWoken ALockIn ->
-  Inv W (s_avail (setjob s j (w_held (jobs s j) hd)) av).
+  Inv W (s_avail (setjob s j (w_pc (w_held (jobs s j) hd) (PExt ALockOutAbort))) av) /\
+  stab0 s (s_avail (setjob s j (w_pc (w_held (jobs s j) hd) (PExt ALockOutAbort))) av).
 Proof.
   intros W s j hd av WF I P. set (r := jobs s j) in *.
   pose proof (I_loc I j) as L0. unfold jl in L0. fold r in L0.
   assert (S : started (pc r) = true) by (rewrite P; auto).
-  set (ra := w_held r hd). set (s1 := s_avail (setjob s j ra) av).
-  assert (EJ : jobs s1 = upd (jobs s) j ra) by reflexivity.
-  assert (L : linv (deps W j) (j_marker (spec W j)) (j_code (spec W j)) (adopted W j) ra) by (apply linv_held; auto).
-  assert (EC : cur ra = cur r) by reflexivity.
-  assert (EF : fdep ra = fdep r) by reflexivity.
-  assert (SD : st r = DONE -> st ra = DONE) by auto.
-  assert (SE : st r = ERROR -> st ra = ERROR) by auto.
-  assert (SS : started (pc ra) = true) by exact S.
-  assert (SP : past_loop (pc r) = true -> past_loop (pc ra) = true) by auto.
-  assert (RD : (st ra = READY \/ in_start (pc ra) = true) -> (st r = READY \/ in_start (pc r) = true)) by auto.
-  assert (LD : launches ra = 1%nat -> launches r = 1%nat \/ st r = READY \/ in_start (pc r) = true) by auto.
-  assert (CNT : unfinished s1 - unfinished s = (if counted (pc ra) then 1 else 0) - (if counted (pc r) then 1 else 0)).
-  { simpl. clear. destruct (counted (pc r)); lia. }
-  assert (FL : forall x, In x (failed s1) <->
-     In x (failed s) \/ (x = j /\ past_loop (pc ra) = true /\ past_loop (pc r) = false /\ st ra <> DONE)).
-  { intros x. split; auto. intros [X|(_ & X & Y & _)]; auto. simpl in X. congruence. }
-  assert (Q : forall c, In c (queue s1) -> In c (queue s) \/ cb_ok s1 c) by (intros c Hc; auto).
-  assert (RET : forall r0, pc r = PReturned r0 -> pc ra = PReturned r0) by auto.
-  assert (LCH : launches ra = launches r \/ (true = false /\ launches ra = Datatypes.S (launches r) /\ pc r = PWoken ALockIn)) by (left; reflexivity).
-  exact (proj1 (@inv_update_own true W s s1 j ra WF I S EJ L EC EF SD SE SS SP RET LCH RD LD CNT FL Q)).
+  set (r' := w_pc (w_held r hd) (PExt ALockOutAbort)). set (s' := s_avail (setjob s j r') av).
+  assert (EJ : jobs s' = upd (jobs s) j r') by reflexivity.
+  assert (L : linv (deps W j) (j_marker (spec W j)) (j_code (spec W j)) (adopted W j) r') by (apply linv_abortheld; auto).
+  assert (EC : cur r' = cur r) by reflexivity.
+  assert (EF : fdep r' = fdep r) by reflexivity.
+  assert (SD : st r = DONE -> st r' = DONE) by auto.
+  assert (SE : st r = ERROR -> st r' = ERROR) by auto.
+  assert (SS : started (pc r') = true) by reflexivity.
+  assert (SP : past_loop (pc r) = true -> past_loop (pc r') = true) by (rewrite P; discriminate).
+  assert (RD : (st r' = READY \/ in_start (pc r') = true) -> (st r = READY \/ in_start (pc r) = true)).
+  { intros _. right. rewrite P. auto. }
+  assert (LD : launches r' = 1%nat -> launches r = 1%nat \/ st r = READY \/ in_start (pc r) = true) by auto.
+  assert (CNT : unfinished s' - unfinished s = (if counted (pc r') then 1 else 0) - (if counted (pc r) then 1 else 0)).
+  { rewrite P. simpl. clear. lia. }
+  assert (FL : forall x, In x (failed s') <->
+     In x (failed s) \/ (x = j /\ past_loop (pc r') = true /\ past_loop (pc r) = false /\ st r' <> DONE)).
+  { intros x. split; auto. intros [X|(_ & X & _)]; auto. discriminate. }
+  assert (Q : forall c, In c (queue s') -> In c (queue s) \/ cb_ok s' c) by (intros c Hc; auto).
+  assert (RET : forall r0, pc r = PReturned r0 -> pc r' = PReturned r0) by (intros r0 X; rewrite P in X; discriminate).
+  assert (LCH : launches r' = launches r \/ (true = false /\ launches r' = Datatypes.S (launches r) /\ pc r = PWoken ALockIn)) by (left; reflexivity).
+  exact (@inv_update_own true W s s' j r' WF I S EJ L EC EF SD SE SS SP RET LCH RD LD CNT FL Q).
 Qed.
 
 Lemma inv_start_body : forall W s j, wf W = true -> Inv W s -> pc (jobs s j) = PWoken ALockIn ->
@@ -602,61 +604,15 @@ Lemma inv_start_body : forall W s j, wf W = true -> Inv W s -> pc (jobs s j) = P
 Proof.
   intros W s j WF I P. unfold start_body. set (r := jobs s j) in *.
   pose proof (I_loc I j) as L0. unfold jl in L0. fold r in L0.
-  assert (S : started (pc r) = true) by (rewrite P; auto).
-  destruct (lockin_facts L0 P) as (LA & MK & NE & ND & NF).
+  assert (ST : started (pc r) = true) by (rewrite P; auto).
+  destruct (lockin_facts L0 P) as (LA & MK & NE & ND & NF & ADN).
   destruct (acquire_l (avail s) (held r) (deps W j) 0) as [[av hd] [i|]] eqn:ACQ.
   - (* aborted start *)
-    set (ra := w_held r hd). set (s1 := s_avail (setjob s j ra) av).
-    assert (I1x : Inv W s1 /\ stab0 s s1).
-    { assert (EJ : jobs s1 = upd (jobs s) j ra) by reflexivity.
-      assert (L : linv (deps W j) (j_marker (spec W j)) (j_code (spec W j)) (adopted W j) ra) by (apply linv_held; auto).
-      assert (EC : cur ra = cur r) by reflexivity.
-      assert (EF : fdep ra = fdep r) by reflexivity.
-      assert (SD : st r = DONE -> st ra = DONE) by auto.
-      assert (SE : st r = ERROR -> st ra = ERROR) by auto.
-      assert (SS : started (pc ra) = true) by exact S.
-      assert (SP : past_loop (pc r) = true -> past_loop (pc ra) = true) by auto.
-      assert (RD : (st ra = READY \/ in_start (pc ra) = true) -> (st r = READY \/ in_start (pc r) = true)) by auto.
-      assert (LD : launches ra = 1%nat -> launches r = 1%nat \/ st r = READY \/ in_start (pc r) = true) by auto.
-      assert (CNT : unfinished s1 - unfinished s = (if counted (pc ra) then 1 else 0) - (if counted (pc r) then 1 else 0)).
-      { simpl. clear. destruct (counted (pc r)); lia. }
-      assert (FL : forall x, In x (failed s1) <->
-         In x (failed s) \/ (x = j /\ past_loop (pc ra) = true /\ past_loop (pc r) = false /\ st ra <> DONE)).
-      { intros x. split; auto. intros [X|(_ & X & Y & _)]; auto. simpl in X. congruence. }
-      assert (Q : forall c, In c (queue s1) -> In c (queue s) \/ cb_ok s1 c) by (intros c Hc; auto).
-      assert (RET : forall r0, pc r = PReturned r0 -> pc ra = PReturned r0) by auto.
-      assert (LCH : launches ra = launches r \/ (true = false /\ launches ra = Datatypes.S (launches r) /\ pc r = PWoken ALockIn)) by (left; reflexivity).
-      exact (@inv_update_own true W s s1 j ra WF I S EJ L EC EF SD SE SS SP RET LCH RD LD CNT FL Q). }
-    destruct I1x as (I1 & ST1).
-    assert (P1 : pc (jobs s1 j) = PWoken ALockIn) by (simpl; rewrite upd_same; exact P).
-    assert (S1 : started (pc (jobs s1 j)) = true) by (rewrite P1; auto).
-    destruct (inv_check j i WF I1 S1) as (I2 & ST2).
-    assert (P2 : pc (jobs (check W all_fixed s1 j i) j) = PWoken ALockIn).
-    { rewrite check_pc; auto. rewrite P1. discriminate. }
-    set (s2 := check W all_fixed s1 j i) in *. set (r2 := jobs s2 j) in *.
-    set (r' := w_pc r2 (PExt ALockOutAbort)). set (s' := setjob s2 j r').
-    assert (S2 : started (pc r2) = true) by (rewrite P2; auto).
-    assert (EJ : jobs s' = upd (jobs s2) j r') by reflexivity.
-    assert (L : linv (deps W j) (j_marker (spec W j)) (j_code (spec W j)) (adopted W j) r') by (apply linv_toabort; auto; apply (I_loc I2 j)).
-    assert (EC : cur r' = cur r2) by reflexivity.
-    assert (EF : fdep r' = fdep r2) by reflexivity.
-    assert (SD : st r2 = DONE -> st r' = DONE) by auto.
-    assert (SE : st r2 = ERROR -> st r' = ERROR) by auto.
-    assert (SS : started (pc r') = true) by reflexivity.
-    assert (SP : past_loop (pc r2) = true -> past_loop (pc r') = true) by (rewrite P2; discriminate).
-    assert (RD : (st r' = READY \/ in_start (pc r') = true) -> (st r2 = READY \/ in_start (pc r2) = true)).
-    { intros _. right. rewrite P2. auto. }
-    assert (LD : launches r' = 1%nat -> launches r2 = 1%nat \/ st r2 = READY \/ in_start (pc r2) = true) by auto.
-    assert (CNT : unfinished s' - unfinished s2 = (if counted (pc r') then 1 else 0) - (if counted (pc r2) then 1 else 0)).
-    { rewrite P2. simpl. clear. lia. }
-    assert (FL : forall x, In x (failed s') <->
-       In x (failed s2) \/ (x = j /\ past_loop (pc r') = true /\ past_loop (pc r2) = false /\ st r' <> DONE)).
-    { intros x. split; auto. intros [X|(_ & X & _)]; auto. discriminate. }
-    assert (Q : forall c, In c (queue s') -> In c (queue s2) \/ cb_ok s' c) by (intros c Hc; auto).
-    assert (RET : forall r0, pc r2 = PReturned r0 -> pc r' = PReturned r0) by (intros r0 X; rewrite P2 in X; discriminate).
-    assert (LCH : launches r' = launches r2 \/ (true = false /\ launches r' = Datatypes.S (launches r2) /\ pc r2 = PWoken ALockIn)) by (left; reflexivity).
-    destruct (@inv_update_own true W s2 s' j r' WF I2 S2 EJ L EC EF SD SE SS SP RET LCH RD LD CNT FL Q) as (I3 & ST3).
-    split; auto. apply stab0_stab. eapply stab0_trans; [|exact ST3]. eapply stab0_trans; eauto.
+    destruct (@inv_acquired W s j hd av WF I P) as (I1 & ST1). fold r in I1, ST1.
+    set (s1 := s_avail (setjob s j (w_pc (w_held r hd) (PExt ALockOutAbort))) av) in *.
+    assert (S1 : started (pc (jobs s1 j)) = true) by (simpl; rewrite upd_same; reflexivity).
+    destruct (@inv_check W s1 j i WF I1 S1) as (I2 & ST2).
+    split; auto. apply stab0_stab. eapply stab0_trans; eauto.
   - (* launch *)
     set (r' := w_pc (w_st (w_launches (w_held r hd) (Datatypes.S (launches (w_held r hd)))) RUNNING) (PExt ALockOutRun)).
     set (s' := s_avail (setjob s j r') av).
@@ -679,8 +635,8 @@ Proof.
     { intros x. split; auto. intros [X|(_ & X & _)]; auto. discriminate. }
     assert (Q : forall c, In c (queue s') -> In c (queue s) \/ cb_ok s' c) by (intros c Hc; auto).
     assert (RET : forall r0, pc r = PReturned r0 -> pc r' = PReturned r0) by (intros r0 X; rewrite P in X; discriminate).
-  assert (LCH : launches r' = launches r \/ (false = false /\ launches r' = Datatypes.S (launches r) /\ pc r = PWoken ALockIn)) by (right; repeat split; auto).
-    exact (@inv_update_own false W s s' j r' WF I S EJ L EC EF SD SE SS SP RET LCH RD LD CNT FL Q).
+    assert (LCH : launches r' = launches r \/ (false = false /\ launches r' = Datatypes.S (launches r) /\ pc r = PWoken ALockIn)) by (right; repeat split; auto).
+    exact (@inv_update_own false W s s' j r' WF I ST EJ L EC EF SD SE SS SP RET LCH RD LD CNT FL Q).
 Qed.
 
 Lemma inv_submit_pc : forall W s s' j p',
